@@ -28,6 +28,7 @@ def check(run):
     shards = 16
     traces = run.drive('TestDriveC15', shards, lambda i: dict(VERIF_SEED=run.seed * 1000 + i, VERIF_N=run.pick(3, 60)), 'c15', timeout=3000)
     run.sample_from(traces[0], 2)
+    dmnfam.conformance(run, traces)
     run.validate('Monitor_Daemon', dmnfam.monitor_cfg(INV, PROP), traces, 'mon')
     # known finding D10 is checked in a pass of its own so that it cannot mask anything else
     run.validate('Monitor_Daemon', dmnfam.monitor_cfg(['C15_ReadmeSkip'], []), traces, 'monreadme')
